@@ -26,7 +26,8 @@ META = {
              'be indistinguishable (serialisation, lookups, counters, ids handed out next) from a fresh AttackGraph(lang, model). '
              'Workloads: bounded-exhaustive sequences (length <= 3, thorough 4) of 17 operations on a hand-built 4-node graph; '
              'random histories (length <= 40) on graphs from generated languages, coreLang and random hand-built graphs; '
-             'non-trivial = history with >= 1 removal and >= 1 lookup-relevant addition; distinct = digest(start, history)'),
+             'non-trivial = history with >= 1 removal and >= 1 lookup-relevant addition; distinct = digest(start, history)'
+             '; added strata: model edited (link removed / put back / defense changed) before regenerate_graph and compared with a fresh graph; DEBUG log level; interference layer'),
     'assumptions': ['invariants are evaluated at quiescent points (after the outermost public call returned)'],
     'shards': {'quick': 8, 'thorough': 16},
     'quotas': {
